@@ -561,3 +561,105 @@ Definition block_ok (cfg : pcfg) (b : block) : bool :=
   | BkText ls =>
       forallb tline_ok ls && match ls with l :: _ => tl_marker l | [] => false end
   end.
+
+(* ---------------------------------------------------------------- documents *)
+(* A document is a list of blocks.  Its spelling choices between the blocks are on the tape:
+   the newline token that ends each block (`\n` or `\r\n`), the empty lines (blanks and
+   comments, then a newline) before the first block and after each block, and whether the text
+   ends with the newline of the last block (and its empty lines) or right after the block. *)
+Definition emptyline := (list ptok * ptok)%type.
+Definition print_eline (e : emptyline) : list ptok := fst e ++ [snd e].
+Definition print_elines (l : list emptyline) : list ptok := concat (map print_eline l).
+
+(* [dt_final] = false: the text ends right after the last block (no newline, no empty lines after it) *)
+Record dtape := { dt_lead : list emptyline; dt_nl : nat -> ptok; dt_sep : nat -> list emptyline; dt_final : bool }.
+
+Definition open_end (r : list block) (tp : dtape) : bool := is_nil r && negb (dt_final tp).
+
+Fixpoint print_blocks (d : list block) (tp : dtape) (n : nat) : list ptok :=
+  match d with
+  | [] => []
+  | b :: r =>
+      print_block b ++
+      (if open_end r tp then []
+       else dt_nl tp n :: print_elines (dt_sep tp n) ++ print_blocks r tp (S n))
+  end.
+Definition print_doc_toks (d : list block) (tp : dtape) : list ptok :=
+  print_elines (dt_lead tp) ++ print_blocks d tp 0.
+Definition print_doc (d : list block) (tp : dtape) : str := unlex (print_doc_toks d tp).
+
+(* the intended event stream *)
+Definition doc_events (d : list block) : list ev_spec := concat (map denote_block d).
+
+Definition is_nl_k (k : tkind) : bool := tk_eqb k KNewline.
+Definition eline_ok (e : emptyline) : bool :=
+  forallb (fun t => is_empty_k (fst t) && negb (is_nl_k (fst t))) (fst e) && is_nl_k (fst (snd e)).
+
+(* `>>` and `=` lines are blocks of one line *)
+Definition is_single_block (b : block) : bool :=
+  match b with BkMeta _ _ | BkSection _ _ _ _ => true | _ => false end.
+Definition is_slm_k (k : tkind) : bool := match k with KMeta | KEq => true | _ => false end.
+
+(* the lines of a multi-line block (step, text): no line is empty (blank or comment only), none
+   starts with `>>` or `=`.  [start]: at the start of a line; [seen]: the line has a token that
+   is not blank *)
+Fixpoint mlines_aux (p : list ptok) (start seen : bool) : bool :=
+  match p with
+  | [] => seen
+  | t :: r =>
+      if is_nl_k (fst t) then seen && mlines_aux r true false
+      else negb (start && is_slm_k (fst t)) && mlines_aux r false (seen || negb (is_empty_k (fst t)))
+  end.
+Definition mlines_ok (p : list ptok) : bool := mlines_aux p true false.
+
+Definition block_lines_ok (b : block) : bool :=
+  if is_single_block b then no_kinds [KNewline] (print_block b) else mlines_ok (print_block b).
+
+Definition sec_trail_okb (b : block) : bool :=
+  match b with BkSection _ _ n2 trail => negb (Nat.eqb n2 0) || is_nil trail | _ => true end.
+
+(* between two multi-line blocks there is an empty line *)
+Definition sep_ok (b : block) (sep : list emptyline) (r : list block) : bool :=
+  is_single_block b || negb (is_nil sep) || match r with [] => true | b2 :: _ => is_single_block b2 end.
+
+Fixpoint blocks_ok (cfg : pcfg) (d : list block) (tp : dtape) (n : nat) : bool :=
+  match d with
+  | [] => true
+  | b :: r =>
+      block_ok cfg b && sec_trail_okb b && block_lines_ok b &&
+      (open_end r tp ||
+       is_nl_k (fst (dt_nl tp n)) && forallb eline_ok (dt_sep tp n) && sep_ok b (dt_sep tp n) r) &&
+      blocks_ok cfg r tp (S n)
+  end.
+
+(* no front matter: the text does not have two `---` lines with only blanks before the first *)
+Definition fm_free (cfg : pcfg) (s : str) : bool :=
+  match parse_frontmatter cfg s with None => true | Some _ => false end.
+(* sufficient: no line of the text is `---` *)
+Definition no_fence_line (s : str) : bool := forallb (fun l => negb (is_fence l)) (lines_inclusive s).
+
+(* the side condition of the document round trip, all of it decidable on the printer's input:
+   [body_ok] (tokens, blocks, layout) and no front matter *)
+Definition body_ok (U : N -> ucls) (cfg : pcfg) (d : list block) (tp : dtape) : bool :=
+  negb (p_strict_escape cfg) &&
+  adjacent_ok U (print_doc_toks d tp) &&
+  forallb eline_ok (dt_lead tp) && blocks_ok cfg d tp 0.
+Definition doc_ok (U : N -> ucls) (cfg : pcfg) (d : list block) (tp : dtape) : bool :=
+  body_ok U cfg d tp && fm_free cfg (print_doc d tp).
+
+(* ---------------------------------------------------------------- front matter *)
+(* `---`, blanks, newline; the YAML text; `---`, blanks, newline; the document.  The YAML text is not
+   interpreted here (serde_yaml is an oracle): it is any text that is empty or ends with a newline and has
+   no `---` line.  After a front matter `>>` lines are no metadata entries (they live in the YAML), so the
+   document has none. *)
+Record fmtape := { fm_ws1 : str; fm_ws2 : str }.
+Definition fence_line (ws : str) : str := [45; 45; 45] ++ ws ++ [10].
+Definition print_fm_doc (y : str) (ft : fmtape) (d : list block) (tp : dtape) : str :=
+  fence_line (fm_ws1 ft) ++ y ++ fence_line (fm_ws2 ft) ++ print_doc d tp.
+Definition hblank (w : str) : bool := str_blank w && negb (existsb (N.eqb 10) w).
+Definition ends_nl (y : str) : bool := match rev y with [] => true | c :: _ => c =? 10 end.
+Definition is_meta_block (b : block) : bool := match b with BkMeta _ _ => true | _ => false end.
+Definition fm_doc_ok (U : N -> ucls) (cfg : pcfg) (y : str) (ft : fmtape) (d : list block) (tp : dtape) : bool :=
+  hblank (fm_ws1 ft) && hblank (fm_ws2 ft) && no_fence_line y && ends_nl y &&
+  forallb (fun b => negb (is_meta_block b)) d && body_ok U cfg d tp.
+Definition fm_doc_events (y : str) (d : list block) : list ev_spec := SYaml y :: doc_events d.
